@@ -701,7 +701,7 @@ func (self *Parser) ExportError(err types.ParsingError) error {
 		return ErrNotExist
 	}
 	return fmt.Errorf("%q", SyntaxError{
-		Pos:  self.p,
+		Pos:  self.errorPos(),
 		Src:  self.s,
 		Code: err,
 	}.Description())
